@@ -14,7 +14,7 @@ namespace Circus.Core
 
 /-! ### lists -/
 
-theorem find?_map_key {α : Type} (key : α → Nat) (l : List α) (g : α → α) (hg : ∀ x, key (g x) = key x) (k : Nat) :
+theorem find_map_key {α : Type} (key : α → Nat) (l : List α) (g : α → α) (hg : ∀ x, key (g x) = key x) (k : Nat) :
     (l.map g).find? (fun x => decide (key x = k)) = (l.find? (fun x => decide (key x = k))).map g := by
   induction l with
   | nil => rfl
@@ -106,7 +106,7 @@ theorem squiet_mapW (g : Watcher → Watcher) (hu : ∀ w, (g w).uid = w.uid)
     (hh : ∀ w h, (w.hookCalls.lookup h).isSome = true → ((g w).hookCalls.lookup h).isSome = true)
     (s : State) : SQuiet s { s with ws := s.ws.map g } := by
   have hfind : ∀ v, ((s.ws.map g).find? (fun w => decide (w.uid = v))) =
-      (s.ws.find? (fun w => decide (w.uid = v))).map g := fun v => find?_map_key (·.uid) s.ws _ hu v
+      (s.ws.find? (fun w => decide (w.uid = v))).map g := fun v => find_map_key (·.uid) s.ws _ hu v
   refine ⟨⟨⟨fun o h => h, fun h => h, fun p h => h, ?_, ?_, fun p h => h, fun p st h => Or.inl h⟩, fun p _ => rfl⟩, rfl, rfl⟩
   · intro v h hc
     unfold HookCalled at *
@@ -226,7 +226,7 @@ theorem squiet_modO (p : Nat) (f : PObj → PObj) (hf : ∀ o, (f o).pid = o.pid
     rw [this]; exact h
   · intro q _
     simp only [getO, modO, modS]
-    rw [find?_map_key (·.pid) s.objs _ hg q]
+    rw [find_map_key (·.pid) s.objs _ hg q]
     cases s.objs.find? (fun o => decide (o.pid = q)) with
     | none => rfl
     | some o =>
